@@ -2186,16 +2186,26 @@ pub fn cast_with_options(
         }
 
         (Date64, Timestamp(TimeUnit::Microsecond, _)) => {
-            let array = array
-                .as_primitive::<Date64Type>()
-                .unary::<_, TimestampMicrosecondType>(|x| x * (MICROSECONDS / MILLISECONDS));
+            let date_array = array.as_primitive::<Date64Type>();
+            let array = if cast_options.safe {
+                date_array
+                    .unary_opt::<_, TimestampMicrosecondType>(|x| x.checked_mul(MICROSECONDS / MILLISECONDS))
+            } else {
+                date_array
+                    .try_unary::<_, TimestampMicrosecondType, _>(|x| x.mul_checked(MICROSECONDS / MILLISECONDS))?
+            };
 
             cast_with_options(&array, to_type, cast_options)
         }
         (Date64, Timestamp(TimeUnit::Nanosecond, _)) => {
-            let array = array
-                .as_primitive::<Date64Type>()
-                .unary::<_, TimestampNanosecondType>(|x| x * (NANOSECONDS / MILLISECONDS));
+            let date_array = array.as_primitive::<Date64Type>();
+            let array = if cast_options.safe {
+                date_array
+                    .unary_opt::<_, TimestampNanosecondType>(|x| x.checked_mul(NANOSECONDS / MILLISECONDS))
+            } else {
+                date_array
+                    .try_unary::<_, TimestampNanosecondType, _>(|x| x.mul_checked(NANOSECONDS / MILLISECONDS))?
+            };
 
             cast_with_options(&array, to_type, cast_options)
         }
